@@ -5,6 +5,7 @@ import (
 	"io"
 	"os"
 	"path/filepath"
+	"time"
 
 	"github.com/benbjohnson/litestream"
 	"github.com/benbjohnson/litestream/file"
@@ -31,52 +32,102 @@ func writeLZ4(dst string, src []byte) error {
 	return f.Close()
 }
 
-// scRestoreV3: a legacy v0.3.x replica (one generation: snapshot index 0 + one WAL segment 0/0) is laid
-// out by the scenario itself from a real SQLite database and its real WAL; the operation under
-// observation is Replica.Restore, which detects the legacy layout and runs RestoreV3
-// (downloadSnapshotV3 + applyWALSegmentsV3 → SQLite checkpoint into the staging file, rename, FsyncDir).
+// scRestoreV3: legacy v0.3.x replicas (generations/<gen>/snapshots|wal, lz4) laid out by the scenario
+// itself from a real SQLite database and its real WAL files; the operations under observation are
+// Replica.Restore (which detects the legacy layout: shouldUseV3Restore → RestoreV3) and RestoreV3 called
+// directly. Variants: snapshot only; snapshot + WAL with committed frames; snapshot + a segment holding
+// only the 32-byte WAL header; snapshot + frames that end in the middle of a transaction (no commit
+// marker); two WAL indexes; two indexes where the last one has no commit; a timestamp that cuts the
+// segment list to an uncommitted prefix.
 func (r *runner) scRestoreV3() {
 	const gen = "0000000000000001"
-	var snap, wal []byte
+	const frame = 24 + 4096
+	var snap, walA, walB []byte
+	ckpt := func() {
+		must(r.astep(func() error {
+			_, err := r.app.Exec(`PRAGMA wal_checkpoint(TRUNCATE)`)
+			return err
+		}), "checkpoint source")
+	}
+	read := func(path string, dst *[]byte) {
+		r.hstep(func() {
+			b, err := os.ReadFile(path)
+			must(err, "read "+path)
+			*dst = b
+		})
+	}
 	r.insert()
 	r.insert()
-	must(r.astep(func() error {
-		_, err := r.app.Exec(`PRAGMA wal_checkpoint(TRUNCATE)`)
-		return err
-	}), "checkpoint source")
-	r.hstep(func() {
-		b, err := os.ReadFile(r.srcPath())
-		must(err, "read source db")
-		snap = b
-	})
-	for i := 0; i < r.rounds; i++ {
-		r.insert()
+	ckpt()
+	read(r.srcPath(), &snap)
+	r.bigTx(12) // ONE transaction of several frames: only its last frame carries the commit marker
+	read(r.srcPath()+"-wal", &walA)
+	ckpt()
+	r.bigTx(12)
+	r.insert()
+	read(r.srcPath()+"-wal", &walB)
+	if len(walA) < 32+2*frame || (len(walA)-32)%frame != 0 || len(walB) < 32+2*frame {
+		must(fmt.Errorf("unexpected WAL sizes %d %d", len(walA), len(walB)), "v3 layout")
 	}
-	r.hstep(func() {
-		b, err := os.ReadFile(r.srcPath() + "-wal")
-		must(err, "read source wal")
-		wal = b
-		must(writeLZ4(litestream.SnapshotPathV3(r.replicaDir(), gen, 0), snap), "write v3 snapshot")
-		must(writeLZ4(litestream.WALSegmentPathV3(r.replicaDir(), gen, 0, 0), wal), "write v3 wal segment")
-	})
-	if len(wal) == 0 {
-		must(fmt.Errorf("empty WAL"), "v3 layout")
+	// first transaction of walB only, without its commit frame
+	cutB := walB[:32+frame]
+	type seg struct {
+		index  int
+		offset int64
+		data   []byte
+		age    time.Duration // mtime = base + age
 	}
-	out := r.outPath("restored3.db")
-	r.removeOutput(out)
-	rep := litestream.NewReplicaWithClient(nil, file.NewReplicaClient(r.replicaDir()))
-	_, _ = r.op("restorev3", func() (uint64, error) {
-		opt := litestream.NewRestoreOptions()
-		opt.OutputPath = out
-		return 0, rep.Restore(r.ctx, opt)
-	})
-	// the restored database must hold what the source holds (scenario-level sanity, reported on stderr)
-	r.hstep(func() {
-		if _, err := os.Stat(out); err == nil {
-			if err := integrityCheckPath(out); err != nil {
-				fmt.Fprintln(os.Stderr, "scenario: restored3.db:", err)
+	type variant struct {
+		name   string
+		segs   []seg
+		direct bool          // call RestoreV3 directly instead of Restore
+		ts     time.Duration // restore timestamp = base + ts (0 = none)
+	}
+	vs := []variant{
+		{name: "snaponly"},
+		{name: "committed", segs: []seg{{0, 0, walA, time.Second}}},
+		{name: "committed-direct", segs: []seg{{0, 0, walA, time.Second}}, direct: true},
+		{name: "hdronly", segs: []seg{{0, 0, walA[:32], time.Second}}},
+		{name: "hdronly-direct", segs: []seg{{0, 0, walA[:32], time.Second}}, direct: true},
+		{name: "midtx", segs: []seg{{0, 0, walA[:len(walA)-frame], time.Second}}},
+		{name: "multi", segs: []seg{{0, 0, walA, time.Second}, {1, 0, walB, 2 * time.Second}}},
+		{name: "multilast", segs: []seg{{0, 0, walA, time.Second}, {1, 0, cutB, 2 * time.Second}}},
+		{name: "tscut", segs: []seg{{0, 0, walA[:32+frame], time.Second}, {0, int64(32 + frame), walA[32+frame:], 10 * time.Second}}, ts: 5 * time.Second},
+	}
+	base := time.Now().Add(-time.Hour).Truncate(time.Second)
+	for _, v := range vs {
+		dir := filepath.Join(r.replicaDir(), "v3-"+v.name)
+		out := r.outPath("v3-" + v.name + ".db")
+		r.hstep(func() {
+			sp := litestream.SnapshotPathV3(dir, gen, 0)
+			must(writeLZ4(sp, snap), "write v3 snapshot")
+			must(os.Chtimes(sp, base, base), "chtimes")
+			for _, sg := range v.segs {
+				wp := litestream.WALSegmentPathV3(dir, gen, sg.index, sg.offset)
+				must(writeLZ4(wp, sg.data), "write v3 wal segment")
+				must(os.Chtimes(wp, base.Add(sg.age), base.Add(sg.age)), "chtimes")
 			}
-		}
-	})
+		})
+		r.removeOutput(out)
+		rep := litestream.NewReplicaWithClient(nil, file.NewReplicaClient(dir))
+		_, _ = r.op("restorev3", func() (uint64, error) {
+			opt := litestream.NewRestoreOptions()
+			opt.OutputPath = out
+			if v.ts != 0 {
+				opt.Timestamp = base.Add(v.ts)
+			}
+			if v.direct {
+				return 0, rep.RestoreV3(r.ctx, opt)
+			}
+			return 0, rep.Restore(r.ctx, opt)
+		})
+		r.hstep(func() {
+			if _, err := os.Stat(out); err == nil {
+				if err := integrityCheckPath(out); err != nil {
+					fmt.Fprintln(os.Stderr, "scenario: "+v.name+":", err)
+				}
+			}
+		})
+	}
 	_ = io.Discard
 }
